@@ -20,6 +20,16 @@ THEOREMS = [
     "IrVerif.Kernel.C06_rename_values_atomic",
     "IrVerif.Kernel.C06_rauw_many_atomic",
     "IrVerif.Kernel.C06_view_atomic",
+    "IrVerif.Kernel.C06_rejects_foreign_value",
+    "IrVerif.Kernel.C06_rejects_produced_value",
+    "IrVerif.Kernel.C06_rejects_foreign_node",
+    "IrVerif.Kernel.C06_rejects_unsafe_removal",
+    "IrVerif.Kernel.C06_rejects_initializer_name_collision",
+    "IrVerif.Kernel.C06_rejects_missing_name",
+    "IrVerif.Kernel.C06_rejects_index_out_of_range",
+    "IrVerif.Kernel.C06_rejects_sort_cycle",
+    "IrVerif.Kernel.C06_rejects_shrink_with_uses",
+    "IrVerif.Kernel.C06_retry",
 ]
 ASSUMPTIONS = [
     "same alphabet, typing assumption and exclusions as C01",
